@@ -107,9 +107,9 @@ def LL.isEOF (r : LL) : Bool := r.eof && r.line.isEmpty
 def scanFrom : RS → Bytes → LL
   | st, [] => ⟨flushLine st, [], true⟩
   | st, c :: r =>
-    match step st c with
-    | (some l, _) => ⟨l, r, false⟩
-    | (none, st') => scanFrom st' r
+    match (step st c).1 with
+    | some l => ⟨l, r, false⟩
+    | none => scanFrom (step st c).2 r
 
 /-- one call of `get_logical_line` on the (decoded) stream -/
 def scan (s : Bytes) : LL := scanFrom RS.init s
@@ -118,9 +118,17 @@ def scan (s : Bytes) : LL := scanFrom RS.init s
 def linesFrom : RS → Bytes → List Bytes
   | st, [] => let l := flushLine st; if l.isEmpty then [] else [l]
   | st, c :: r =>
-    match step st c with
-    | (some l, st') => l :: linesFrom st' r
-    | (none, st') => linesFrom st' r
+    match (step st c).1 with
+    | some l => l :: linesFrom (step st c).2 r
+    | none => linesFrom (step st c).2 r
+
+/-- the caller's loop with a call budget: `none` = budget exhausted before LT_EOF (never with `fuel > |s|`, see
+    `lineReader_total`) -/
+def iterLines : Nat → Bytes → Option (List Bytes)
+  | 0, _ => none
+  | n + 1, s =>
+    let r := scan s
+    if r.isEOF then some [] else (iterLines n r.rest).map (r.line :: ·)
 
 /-- reader state after consuming all of `s` -/
 def endState (st : RS) (s : Bytes) : RS := s.foldl (fun st c => (step st c).2) st
